@@ -35,7 +35,7 @@ ASSUMPTIONS = [
     "a single-slope shape is constrained on its own side; flatness on the other side is judged inside the fitted temperature range only",
     "additivity and exact-line tolerances: 4 ulp of the value scale",
 ]
-REQUIRED_REACH = {"repeat.evaluations_compared": 300, "post.predict_submodel": 300, "regime.smoothed": 50, "regime.plain": 50, "regime.flat": 5,
+REQUIRED_REACH = {"repeat.evaluations_compared": 300, "document.imported_from_2_0": 100, "post.predict_submodel": 300, "regime.smoothed": 50, "regime.plain": 50, "regime.flat": 5,
                   "regime.equal_bp_at_Tmax": 3, "regime.equal_bp_at_Tmin": 3, "clause.between_flat": 100,
                   "clause.monotone": 300, "clause.exact_line": 100, "clause.asymptote": 30, "clause.loads": 300,
                   "boundary.predict": 20, "regime.percent_k_sum_at_or_above_one": 1500, "document.balance_points_in_reversed_order": 30}
@@ -416,6 +416,28 @@ def run_case(spec):
         e = F.effective(coef)
         if e["bh"] or e["bc"]:
             keys.add("%s|%s|%s|%d" % (shape, ",".join(regimes), hit, spec["batch"] * 1000 + it))
+    # ---- models imported from legacy (2.0) documents: the same clauses, and the 2.0 formula itself -----------------------------------
+    for j in range(max(2, spec["n"] // 12)):
+        kind2 = B.KINDS_2_0[(spec["batch"] + j) % 4]
+        doc2 = B.draw_2_0_doc(rng, kind2)
+        m = em.DailyModel.from_2_0_dict(doc2) if j % 2 else em.DailyModel.from_2_0_json(json.dumps(doc2))
+        sub = m.params.submodels["fw-su_sh_wi"]
+        coef = {k_: (getattr(v_, "value", v_)) for k_, v_ in sub.coefficients.model_dump().items()}
+        tc = dict(sub.temperature_constraints)
+        T = np.round(np.concatenate([rng.uniform(-60, 140, 400), [doc2["model_params"].get("heating_balance_point", 50.0), doc2["model_params"].get("cooling_balance_point", 65.0)]]), 3)
+        CUR.update(coef=coef, tc=tc, judge=True)
+        out = m._predict(_predict_cols(m, T)).sort_index()
+        CUR["judge"] = False
+        I.reach("document.imported_from_2_0")
+        ey, eh, ec = B.eval_2_0(doc2, out["temperature"].to_numpy(dtype=float))
+        for col, exp in (("predicted", ey), ("heating_load", eh), ("cooling_load", ec)):
+            got = out[col].to_numpy(dtype=float)
+            bad = np.abs(got - exp) > 4 * np.spacing(np.maximum(np.abs(exp), abs(doc2["model_params"]["intercept"])))
+            if bad.any():
+                i_ = int(np.argmax(bad))
+                add("imported-2.0-model-differs-from-its-formula:%s:%s" % (kind2, col), "T=%r: %s %r, 2.0 formula %r" % (out["temperature"].iloc[i_], col, got[i_], exp[i_]))
+                break
+        hist["shape"]["2.0:" + kind2] = hist["shape"].get("2.0:" + kind2, 0) + 1
     seen, kept = {}, []
     for v in VIOL:
         seen[v["mech"]] = seen.get(v["mech"], 0) + 1
